@@ -938,5 +938,42 @@ example : runSession [⟨some 1, [((0 : Rat), (1 : Int)), (1, 2)], .width 3 0 (s
       ⟨some 1, [((0 : Rat), (1 : Int)), (1, 2)], .width 3 0 (some .start)⟩]
     = [.ok [(0, 1), (1, 2), (2, 0)], .ok [(-1, 9), (0, 5), (1, 6)], .ok [(0, 1), (1, 2), (2, 0)]] := by decide +kernel
 
+/-! ## library-produced inputs: a truthful `step` attribute is redundant -/
+
+/-- An array whose coordinates are a regular lattice `a0 + i·step` (at least two points) and whose `step`
+    attribute is that very step is treated by `extend_dim`, `extend_dim_width` and `adjust_dim_width` exactly
+    like the same array without the attribute (the estimated step is the lattice step, `C17_step_known`).
+    This is what lets the check judge arrays that other library functions produced (`create_*_range`,
+    `*_dim_from_array`, `set_dim_attrs`, `resize`) by the lattice of their coordinates: as long as the
+    attribute they carry is truthful the two readings of "the step known from attributes or estimated"
+    coincide; an array on which they differ violates the premise, not the conclusion. -/
+theorem C17_truthful_attribute {α} (a : Samples α) (a0 step : Rat) (k : Nat)
+    (h : coordsOf a = lattice a0 step (k + 2)) :
+    (∀ (start stop : Option Rat) (fill : α) (eps : Rat) (lc rc : Bool),
+        extendDim a (some step) start stop fill eps lc rc = extendDim a none start stop fill eps lc rc) ∧
+    (∀ (w : Nat) (fill : α) (pos : Option Pos),
+        extendWidth a (some step) w fill pos = extendWidth a none w fill pos) ∧
+    (∀ (w : Int) (fill : α) (pos : Option Pos),
+        adjustWidth a (some step) w fill pos = adjustWidth a none w fill pos) := by
+  have h1 : dimStep (some step) (coordsOf a) = dimStep none (coordsOf a) := by
+    rw [h]
+    exact (C17_step_known a0 step k _).1.trans (C17_step_known a0 step k []).2.symm
+  have hw : ∀ (w : Nat) (fill : α) (pos : Option Pos),
+      extendWidth a (some step) w fill pos = extendWidth a none w fill pos := by
+    intro w fill pos
+    simp only [extendWidth, h1]
+  refine ⟨?_, hw, ?_⟩
+  · intro start stop fill eps lc rc
+    simp only [extendDim, h1]
+  · intro w fill pos
+    simp only [adjustWidth, hw]
+
+-- the hypothesis is satisfiable; an untruthful attribute (the stale step a `resize` could leave) does change the answer;
+-- a fractional fill value on whole-number cells is held as it is
+example : coordsOf [((0 : Rat), (1 : Int)), (1/2, 2), (1, 3)] = lattice 0 (1/2) 3 := by decide +kernel
+example : extendWidth [((0 : Rat), (1 : Int)), (1/2, 2)] (some 1) 3 0 (some .start) = .ok [(0, 1), (1/2, 2), (3/2, 0)] ∧
+    extendWidth [((0 : Rat), (1 : Int)), (1/2, 2)] none 3 0 (some .start) = .ok [(0, 1), (1/2, 2), (1, 0)] := by decide +kernel
+example : extendWidth [((0 : Rat), Cell.num 1), (1, Cell.num 2)] none 4 (Cell.num (1/2)) (some .center)
+    = .ok [(-1, .num (1/2)), (0, .num 1), (1, .num 2), (2, .num (1/2))] := by decide +kernel
 
 end SE.Proofs.C17
